@@ -3,13 +3,21 @@
 import json, os
 HERE = os.path.dirname(os.path.dirname(os.path.abspath(__file__)))
 
-CHECKS = {
- "C20": dict(
-   text="Coq theorems over a hand-written model of syntax.rs/lex.rs: the counter scan returns exactly the stack-matching partner (both directions, arbitrary token lists), the output is the text with one escape pair around one whole token or the text unchanged, totality for every text/cursor; tied to /repo by exhaustive enumeration of the property's alphabet (quick: length<=4, thorough: <=5, every cursor) plus random Unicode, 3-way (impl / extracted model / vm_compute).",
-   design="DESIGN.md section 5 C20",
-   note="Trusted: Coq kernel, the hand-written model (tied by differential correspondence, sampling beyond the enumerated lengths), extraction+OCaml driver (cross-checked in-kernel on a sub-sample), Rust harness, Python oracle. Axioms: none (Closed under the global context).",
-   technique="Rocq/Coq proof (induction over token lists) + model/implementation correspondence check"),
-}
+import glob, importlib, sys
+sys.path.insert(0, os.path.join(HERE, "lib"))
+sys.path.insert(0, os.path.join(HERE, "lib", "props"))
+
+def collect():
+    """every lib/props/cNN.py that defines MANIFEST = dict(text=, design=, note=, technique=) is a claimed check"""
+    out = {}
+    for f in sorted(glob.glob(os.path.join(HERE, "lib", "props", "c[0-9][0-9]*.py"))):
+        name = os.path.basename(f)[:-3]
+        mod = importlib.import_module(name)
+        if hasattr(mod, "MANIFEST"):
+            out[mod.PID] = mod.MANIFEST
+    return out
+
+CHECKS = collect()
 
 NOT_APPLICABLE = []
 
